@@ -271,6 +271,8 @@ def pick_item(rng, p_corpus=0.6, max_len=6000):
         flags["silent"] = False
     if rng.random() < 0.06:
         flags["log_level"] = 10       # logging.DEBUG: the first constructor of a process configures the root logger
+    if rng.random() < 0.04:
+        flags["debug"] = True         # documented constructor flag (implies non-silent)
     return {"ddl": ddl, "flags": flags, "run": {}, "src": "gen:" + ",".join(shape)}
 
 
